@@ -34,7 +34,10 @@ TOrigin == /\ IsEvent("origin") /\ anchored /\ UNCHANGED envars
            /\ lat = <<1, 0, 1>> => (Tr[l].exact /\ Tr[l].tq = <<(A0 + hgt) * C(lon), (A0 + hgt) * S(lon), 0>>)
 \* a general anchor (any latitude within +-85 deg, any longitude): state machine step SetAnchor, relations by residuals
 TGeneric == /\ IsEvent("generic") /\ UNCHANGED envars /\ ResidualsOK(Tr[l])
-TraceNext == TGeneric \/ TReset \/ TSetAnchor \/ TResetCall \/ TToEnuGeo \/ TToEcef \/ TToEnuEcef \/ TToGeo \/ TRound \/ TOrigin
+\* continuing on a copy (copy construction, copy assignment, growth of a vector of converters): a copy is in the state of its source,
+\* anchored or not
+TCopy == IsEvent("copy") /\ UNCHANGED envars /\ Tr[l].anch = anchored
+TraceNext == TCopy \/ TGeneric \/ TReset \/ TSetAnchor \/ TResetCall \/ TToEnuGeo \/ TToEcef \/ TToEnuEcef \/ TToGeo \/ TRound \/ TOrigin
 TraceSpec == TraceInit /\ [][TraceNext]_tvars
 TraceAccepted == TLCGet("stats").diameter - 1 = Len(Tr)
 =============================================================================
